@@ -9,7 +9,7 @@ from typing import Dict, FrozenSet, List, Optional, Set, Tuple
 
 from ..fold import Folder, Lit, Regex, Unfoldable, byteset_str
 from ..fsm import ScannerFSM
-from ..model import FuncInfo, Model, dotted, unparse, walk_no_nested
+from ..model import AnchorMissing, FuncInfo, Model, dotted, unparse, walk_no_nested
 from ..report import VERIF, Report
 from ..util import site
 from . import tokenizer as T
@@ -247,6 +247,24 @@ def run(model: Model, rep: Report) -> None:
         r4.violation(site(hx), hx.qualname, "HEX_PAIR's one-digit alternative converted with int(d, 16)", "an odd final digit is read as 0x0d instead of 0xd0 (ISO 32000-1 7.3.4.3: <901FA> is 90 1F A0); asciihexdecode pads with '0'")
     else:
         r4.ok(site(hx), hx.qualname, "odd final hex digit is padded / no one-digit alternative")
+
+    # ----------------------------------------------------------------- R10
+    r10 = rep.rule("C01-R10", "ORDER", "hex strings: white space is removed from the whole accumulated token before digits are paired, so the two digits of a byte may be separated by white space or by a buffer refill (7.3.4.3)", 2)
+    sub = [c for c in walk_no_nested(hx.node) if isinstance(c, ast.Call) and isinstance(c.func, ast.Attribute) and c.func.attr == "sub" and unparse(c.func.value) == "HEX_PAIR"]
+    if not sub:
+        raise AnchorMissing("_parse_hexstring: HEX_PAIR.sub(...) not found")
+    arg = sub[0].args[1] if len(sub[0].args) > 1 else None
+    stripped = isinstance(arg, ast.Call) and isinstance(arg.func, ast.Attribute) and arg.func.attr == "sub" and unparse(arg.func.value) == "SPC" and len(arg.args) == 2 and isinstance(arg.args[0], ast.Constant) and arg.args[0].value == b"" and unparse(arg.args[1]) == "self._curtoken"
+    r10.check(bool(stripped), site(hx, sub[0]), hx.qualname, "digits are paired over SPC.sub(b'', self._curtoken): the whole token with all white space removed", why=f"HEX_PAIR is applied to `{unparse(arg) if arg is not None else None}`: pairing restarts at white space (or at a refill), so `<4 1>` no longer reads as `A`")
+    import re._parser as _sp  # type: ignore[import]
+
+    try:
+        tree = _sp.parse(pair.pattern) if isinstance(pair, Regex) else None
+        want = _sp.parse(rb"[0-9a-fA-F]{2}|.")
+        same = tree is not None and repr(tree) == repr(want)
+    except Exception:
+        same = False
+    r10.check(same, site(hx), "pdfminer.psparser.HEX_PAIR", "HEX_PAIR matches two hexadecimal digits, or else any single byte (regex syntax trees compared)", why=f"pattern is {getattr(pair, 'pattern', None)!r}")
 
     # ----------------------------------------------------------------- R5
     _assembly(model, rep, fo)
